@@ -667,6 +667,19 @@ def run_cross_process(case):
   import sys
   from vf import env as _env
   rounds = case['rounds']
+  if case.get('sibling'):
+    # In THIS process another sampler with the same seed has already visited
+    # the same rounds over a larger population (an evaluation sampler over the
+    # held-out clients next to the training sampler).  The restarted processes
+    # know nothing of it.
+    n_big = len(case['clients']) + case['sibling']
+    big = fedjax.InMemoryFederatedData(
+        {b'big%03d' % j: {'x': np.zeros((1 + j % 3, 1), np.float32)} for j in range(n_big)})
+    sib = fedjax.client_samplers.UniformGetClientSampler(
+        big, min(case['cohort'] + 1, n_big), case['seed'])
+    for r in rounds:
+      sib.set_round_num(r)
+      sib.sample()
   here = _child_sample({'case': case, 'rounds': rounds})
   outs = []
   for hs in case['hashseeds']:
@@ -696,7 +709,8 @@ def cross_process_strategy(draw, tier):
           'clients': clients, 'seed': draw(seed_strategy()),
           'cohort': draw(cohort_strategy(n)),
           'rounds': draw(st.lists(st.integers(0, 40), min_size=2, max_size=4)),
-          'hashseeds': draw(st.lists(st.integers(1, 10**6), min_size=2, max_size=2, unique=True))}
+          'hashseeds': draw(st.lists(st.integers(1, 10**6), min_size=2, max_size=2, unique=True)),
+          'sibling': draw(st.sampled_from([0, 3, 7, 20]))}
 
 
 CHECKS = [
